@@ -236,6 +236,8 @@ def run(prog, ctx):
 
     # ------------------------------------------------------------------ D6
     check_point_count(prog, ctx)
+    # ------------------------------------------------------------------ D7
+    check_forwarding(prog, ctx)
 
     # ------------------------------------------------------------------ D5
     sigs = {}
@@ -293,6 +295,20 @@ def check_point_count(prog, ctx):
               "initialising the operation empties the evaluation dictionary (the counter starts at 0 for every run)",
               "Integration.initialize does not reset the integrand's evaluation dictionary on every path: evaluations of an earlier run on the "
               "same function object are counted again, the reported point count exceeds the evaluations of this run")
+    # the counter is reset only where a run starts: no method of the operation itself (called once per step / per component grid)
+    # calls self.initialize(), which empties the evaluation dictionary
+    integ = prog.cls("GridOperation.Integration")
+    inner = []
+    for f in integ.methods.values():
+        if f.name in ("__init__", "initialize"):
+            continue
+        for x in R.calls_in(f.node, method="initialize"):
+            if R.attr_chain(x.func.value) == [f.self_name]:
+                inner.append((f, x))
+    ctx.check(not inner, "C13.D6", "GridOperation.Integration::no-reinitialisation-during-a-run", inner[0][0].loc(inner[0][1]) if inner else integ.methods["initialize"].loc(),
+              "no per-step method of Integration re-initialises the operation",
+              "%s calls self.initialize() (line %d): the evaluation dictionary is emptied in the middle of a run, the reported point count no longer "
+              "equals the number of distinct evaluations performed" % (inner[0][0].qual if inner else "", inner[0][1].lineno if inner else 0))
     tc = prog.func("StandardCombi.StandardCombi.get_total_num_points")
     ctx.touch(tc)
     tt = Terms(tc.node, max_depth=0)
@@ -337,3 +353,61 @@ def _resolve_names(fi, g, at_node, tm, norm):
     out = rec(g)
     # re-normalise comparisons whose operands changed order relevance
     return out
+
+
+def _bound_to(call, callee, pname):
+    """the argument expression that `call` binds to parameter `pname` of `callee` (None if it is left to its default)"""
+    for k in call.keywords:
+        if k.arg == pname:
+            return k.value
+    params = [p for p in callee.params if p != callee.self_name]
+    # an explicit Base.__init__(self, ...) call passes self positionally
+    args = list(call.args)
+    if isinstance(call.func, ast.Attribute) and call.func.attr == "__init__" and args and isinstance(args[0], ast.Name) and not isinstance(call.func.value, ast.Call):
+        args = args[1:]
+    if pname in params and params.index(pname) < len(args):
+        return args[params.index(pname)]
+    return None
+
+
+def check_forwarding(prog, ctx):
+    """D7: the limits and the norm the caller chose reach the code that uses them.  (a) performSpatiallyAdaptiv forwards tol,
+    max_time, max_evaluations and min_evaluations to continue_adaptive_refinement.  (b) every strategy constructor forwards its
+    `norm` (and every other parameter it shares by name with SpatiallyAdaptivBase.__init__) to the base constructor."""
+    base = prog.cls(BASE)
+    psa = prog.lookup_method(base, "performSpatiallyAdaptiv")
+    car = prog.lookup_method(base, "continue_adaptive_refinement")
+    ctx.touch(psa)
+    n = 0
+    for call in R.calls_in(psa.node, method="continue_adaptive_refinement"):
+        for pn in [p for p in car.params if p in psa.params and p != car.self_name]:
+            n += 1
+            v = _bound_to(call, car, pn)
+            ok = isinstance(v, ast.Name) and v.id == pn
+            ctx.check(ok, "C13.D7", R.key_of(psa, "forwards:%s" % pn), psa.loc(call),
+                      "performSpatiallyAdaptiv hands its `%s` on to the refinement loop" % pn,
+                      "performSpatiallyAdaptiv does not pass its parameter `%s` on to continue_adaptive_refinement (%s): the loop runs with the "
+                      "default instead of the caller's value" % (pn, "bound to `%s`" % src(v) if v is not None else "left to its default"))
+    binit = base.methods["__init__"]
+    for st in [c_ for c_ in prog.all_subclasses(base, include_self=False)]:
+        init = st.methods.get("__init__")
+        if init is None:
+            continue
+        ctx.touch(init)
+        supers = [x for x in R.calls_in(init.node) if isinstance(x.func, ast.Attribute) and x.func.attr == "__init__"]
+        if not supers:
+            continue
+        call = supers[0]
+        parent = prog.lookup_method(st.mro[1], "__init__") if len(st.mro) > 1 else binit
+        if parent is None:
+            continue
+        for pn in [p for p in parent.params if p in init.params and p != parent.self_name]:
+            n += 1
+            v = _bound_to(call, parent, pn)
+            stored = any(isinstance(s_.value, ast.Name) and s_.value.id == pn for s_ in R.self_stores(init, pn))
+            ok = (isinstance(v, ast.Name) and v.id == pn) or stored
+            ctx.check(ok, "C13.D7", R.key_of(init, "forwards:%s" % pn), init.loc(call),
+                      "the constructor hands its `%s` on to the base constructor" % pn,
+                      "%s.__init__ accepts `%s` but does not pass it to %s.__init__ (%s) nor stores it: the strategy silently runs with the base "
+                      "default" % (st.name, pn, parent.cls.name, "bound to `%s`" % src(v) if v is not None else "left to its default"))
+    ctx.floor("C13.D7", n, 6, "same-named parameters between a caller and the constructor / loop it delegates to")
